@@ -4,30 +4,9 @@
 //! 808 is_superset, 809 is_disjoint, 810 `-` operator result, 811 operand changed, 820 eq vs model, 821 eq not symmetric, 822 eq not reflexive
 use crate::model::*;
 use crate::vf;
-use micromap::{Map, Set};
+use micromap::Set;
 
-pub fn any_u8_set<const N: usize>() -> (Set<u8, N>, Model<N>) {
-    let mut s: Set<u8, N> = empty_set();
-    let mut md = Model::<N>::new();
-    let n = vf::any_usize();
-    vf::assume(n <= N);
-    let mut i = 0;
-    while i < N {
-        let k = vf::any_u8();
-        if i < n { vf::assume(!md.has(k)); md.insert(k, 0, 0, 0); vf::check(s.insert(k), 100); }
-        i += 1;
-    }
-    (s, md)
-}
 
-pub fn same_u8_set<const N: usize>(s: &Set<u8, N>, md: &Model<N>) {
-    vf::check(s.len() == md.n, 811);
-    let q = vf::any_u8();
-    vf::check(s.contains(&q) == md.has(q), 811);
-    let (mut cnt, mut total) = (0usize, 0usize);
-    for k in s.iter() { total += 1; if *k == q { cnt += 1; } }
-    vf::check(total == md.n && cnt == md.has(q) as usize, 811);
-}
 
 #[derive(Clone, Copy, PartialEq)]
 pub enum Op { Union, Inter, Diff, Sym }
@@ -250,27 +229,6 @@ pub fn c08_predicates<const N: usize, const M: usize>() {
 }
 
 // ------------------------------------------------------------------------------------------ C14
-pub fn any_u8_map<const N: usize>() -> (Map<u8, u8, N>, Model<N>) {
-    let mut m: Map<u8, u8, N> = empty_map();
-    let mut md = Model::<N>::new();
-    let n = vf::any_usize();
-    vf::assume(n <= N);
-    let mut i = 0;
-    while i < N {
-        let (k, v) = (vf::any_u8(), vf::any_u8());
-        if i < n { vf::assume(!md.has(k)); md.insert(k, v, 0, 0); vf::check(m.insert(k, v).is_none(), 100); }
-        i += 1;
-    }
-    (m, md)
-}
-pub fn same_u8_map<const N: usize>(m: &Map<u8, u8, N>, md: &Model<N>) {
-    vf::check(m.len() == md.n, 811);
-    let q = vf::any_u8();
-    vf::check(m.get(&q).copied() == md.get(q), 811);
-    let (mut cnt, mut total) = (0usize, 0usize);
-    for (k, v) in m.iter() { total += 1; if *k == q { cnt += 1; vf::check(Some(*v) == md.get(q), 811); } }
-    vf::check(total == md.n && cnt == md.has(q) as usize, 811);
-}
 fn model_eq<const N: usize, const M: usize>(a: &Model<N>, b: &Model<M>, vals: bool) -> bool {
     if a.n != b.n { return false; }
     let mut i = 0;
